@@ -221,4 +221,49 @@ theorem capacity_isEmpty_translated (s : St) (v : Nat) :
     | none => simp [desc, hloc, hb, dRef, dLen]
     | some blk => by_cases r1 : blk.ref = 1 <;> simp [desc, hloc, hb, dRef, dLen, dCap, r1, dec_beq0]
 
+/-- **`find(char c)`** (the first translated loop): on every state where the value `a` of the String is specified, the
+    translated loop — with any `fuel > length()` — returns the pointer to the first `c`, resp. null, and the model's `findC`
+    returns the index of that pointer. -/
+theorem findC_translated {s : St} {v : Nat} {d : Desc} {a : List Nat} (hd : desc s v = some d)
+    (ha : contentVal s v = some a) (c fuel : Nat) (hf : a.length < fuel) :
+    Body.findC fuel s v c = some ((a.findIdx? (· == c)).map (fun i => (⟨d.base, d.off + i⟩ : CPtr))) ∧
+    findC s v c = some (a.findIdx? (· == c)) := by
+  refine ⟨?_, by simp [findC, ha]⟩
+  simp only [contentVal, content, hd, Option.bind_eq_bind, Option.bind_some] at ha
+  cases hr : rdRange s d.base d.off d.len with
+  | none => simp [hr] at ha
+  | some bytes =>
+    simp only [hr, Option.bind_some] at ha
+    have hb := allSome_eq ha
+    have hlen : a.length = d.len := by
+      have := rdRange_length hr
+      rw [hb, List.length_map] at this; exact this
+    have hread : ∀ i, i < a.length → rdVal s d.base (d.off + i) = some (a.getD i 0) := by
+      intro i hi
+      unfold rdRange at hr
+      cases hm : memOf s d.base with
+      | none => simp [hm] at hr
+      | some m =>
+        simp only [hm, Option.bind_eq_bind, Option.bind_some, rdList] at hr
+        split at hr
+        · injection hr with hr
+          have : m[d.off + i]? = bytes[i]? := by
+            rw [← hr, List.getElem?_take_of_lt (by omega), List.getElem?_drop]
+          simp [rdVal, hm, this, hb, List.getElem?_map, List.getElem?_eq_getElem hi, List.getD]
+        · cases hr
+    have hS : dStr s (s.vars v) = some ⟨d.base, d.off⟩ := by rw [dStr_desc, hd]; rfl
+    have hL : dLen s (s.vars v) = some d.len := by rw [dLen_desc, hd]; rfl
+    unfold Body.findC
+    simp only [hS, hL, Option.bind_eq_bind, Option.bind_some, padd, ← hlen]
+    have := findC_loop_spec s v c d.base d.off a hread a.length 0 fuel (by omega) hf
+    simpa using this
+
+/-- non-vacuity: `String("abcab", 5).find('b')` through the translated loop is the pointer to index 1, `find('x')` is null,
+    too little fuel is a fault -/
+example :
+    let s0 := (ctorPtr (init 4 (fun _ => [])) 0 [some 97, some 98, some 99, some 97, some 98]).getD (init 4 (fun _ => []))
+    (Body.findC 6 s0 0 98).map (·.map (·.off)) = some (some 1) ∧ (Body.findC 6 s0 0 120).map (·.map (·.off)) = some none ∧
+    (Body.findC 3 s0 0 120).isNone = true ∧ findC s0 0 98 = some (some 1) := by
+  decide
+
 end Nstd.Str
